@@ -1,4 +1,5 @@
 from .. import common
+from . import _tplm
 
 MANIFEST = {
     "text": "Lean 4 theorems C28_matchF_terminates / C28_match_terminates / C28_parse_terminates / C28_parseExpr_terminates / "
@@ -27,4 +28,7 @@ def run(ctx):
         "return procedures terminate",
         "the rule table has the shape cl.compileExpr produces (Env.wf; evaluated by the driver on every compiled grammar: wf=1)",
     ]
-    common.standard(ctx, "GopModel.Props.C28", "c28", 2000, 40000, RULE, driver="drv_tplmatch")
+    common.standard(ctx, "GopModel.Props.C28", "c28", 2000, 40000, RULE, driver=_tplm.DRIVER)
+
+
+replay = _tplm.replay
